@@ -163,7 +163,9 @@ def _check_cvrptw(v, inst, actions, cfg, exact):
     for a in seq:
         arr = t + dist(nodes[cur], nodes[a])
         start = max(arr, tw[a][0])
-        v.le(start, tw[a][1], "time_window" if a != 0 else "depot_deadline")
+        # instances whose coordinates, windows and durations are dyadic rationals with exactly representable distances
+        # (`_exact_time`): float32 and the oracle agree bit for bit, so equality with a window end is decided exactly
+        v.le(start, tw[a][1], "time_window" if a != 0 else "depot_deadline", exact=bool(inst.get("_exact_time")))
         t = start + dur[a]
         if a == 0:
             t = 0.0
